@@ -518,6 +518,7 @@ pub struct RtKey {
     pub name: &'static str,
     /// 0 = short-term, 1 = long-term MD5, 2 = long-term SHA-256
     pub kind: u8,
+    pub user: &'static str,
     pub realm: &'static str,
     pub password: &'static str,
     pub lib: HMACKey,
@@ -539,14 +540,18 @@ fn lib_key(kind: u8, user: &str, realm: &str, password: &str) -> HMACKey {
 const RT_REALM_QUOTED: &str = "\"rt.example.org\"";
 const RT_REALM_NFD: &str = "re\u{301}alm.example";
 const RT_PASSWORD_LONG: &str = "0123456789abcdefghijklmnopqrstuvwxyzABCDEFGHIJKLMNOPQRSTUVWXYZ-0123456789abcdefghijklmnopqrstuvwxyz";
+const RT_PASSWORD_64: &str = "0123456789abcdefghijklmnopqrstuvwxyzABCDEFGHIJKLMNOPQRSTUVWXYZ-+";
+const RT_PASSWORD_63: &str = "0123456789abcdefghijklmnopqrstuvwxyzABCDEFGHIJKLMNOPQRSTUVWXYZ-";
+const RT_PASSWORD_65: &str = "0123456789abcdefghijklmnopqrstuvwxyzABCDEFGHIJKLMNOPQRSTUVWXYZ-+=";
 const RT_PASSWORD_NFD: &str = "se\u{301}same\u{212B}pa\u{308}ss";
 
 fn rt_keys() -> Vec<RtKey> {
-    let mk = |name: &'static str, kind: u8, realm: &'static str, password: &'static str| RtKey {
-        name, kind, realm, password,
-        lib: lib_key(kind, RT_USER, realm, password),
-        raw: if kind == 0 { obs::st_key(password) } else { obs::lt_key(RT_USER, realm, password, kind as u16) },
+    let mku = |name: &'static str, kind: u8, user: &'static str, realm: &'static str, password: &'static str| RtKey {
+        name, kind, user, realm, password,
+        lib: lib_key(kind, user, realm, password),
+        raw: if kind == 0 { obs::st_key(password) } else { obs::lt_key(user, realm, password, kind as u16) },
     };
+    let mk = |name: &'static str, kind: u8, realm: &'static str, password: &'static str| mku(name, kind, RT_USER, realm, password);
     vec![
         mk("st", 0, "", RT_PASSWORD),
         mk("lt-md5", 1, RT_REALM, RT_PASSWORD),
@@ -554,8 +559,15 @@ fn rt_keys() -> Vec<RtKey> {
         mk("lt-md5-quoted-realm", 1, RT_REALM_QUOTED, RT_PASSWORD),
         mk("lt-sha256-nfd", 2, RT_REALM_NFD, RT_PASSWORD_NFD),
         mk("st-nfd", 0, "", RT_PASSWORD_NFD),
-        // longer than the block size of SHA-1 / SHA-256 (HMAC then hashes the key itself)
+        // longer than the block size of SHA-1 / SHA-256 (HMAC then hashes the key itself), and
+        // exactly / one less / one more than the block size
         mk("st-long", 0, "", RT_PASSWORD_LONG),
+        mk("st-64", 0, "", RT_PASSWORD_64),
+        mk("st-63", 0, "", RT_PASSWORD_63),
+        mk("st-65", 0, "", RT_PASSWORD_65),
+        // an empty user name (the key string then starts with the colon)
+        mku("lt-md5-empty-user", 1, "", "rt-user:rt.example.org", RT_PASSWORD),
+        mku("lt-sha256-empty-user", 2, "", RT_REALM, RT_PASSWORD),
     ]
 }
 
@@ -1117,11 +1129,11 @@ fn cmd_faults(args: &[String]) {
                 let pw = key.password;
                 let first = pw.chars().next().map(|c| c.len_utf8()).unwrap_or(0);
                 let variants = [format!("{}x", pw), pw[first..].to_string(), pw.replacen('s', "S", 1), format!(" {}", pw)];
-                variants.iter().map(|w| accepted(&bytes, t, &lib_key(key.kind, RT_USER, key.realm, w.as_str())).0).chain([
+                variants.iter().map(|w| accepted(&bytes, t, &lib_key(key.kind, key.user, key.realm, w.as_str())).0).chain([
                     // same password, other user for long-term keys
                     key.kind != 0 && accepted(&bytes, t, &lib_key(key.kind, "rt-usex", key.realm, key.password)).0,
                     // the realm written without / with surrounding quotes is another realm
-                    key.kind != 0 && accepted(&bytes, t, &lib_key(key.kind, RT_USER,
+                    key.kind != 0 && accepted(&bytes, t, &lib_key(key.kind, key.user,
                         &(if key.realm.starts_with('"') { key.realm.trim_matches('"').to_string() } else { format!("\"{}\"", key.realm) }),
                         key.password)).0,
                 ]).collect()
@@ -1173,6 +1185,27 @@ fn cmd_faults(args: &[String]) {
                             }
                             writeln!(f, "{}", json!({"op":"flt","attr":tname,"pos":base + 1,"acc":acc,"sub":[],
                                                      "panic":panicked,"double":true,"forged":true})).unwrap();
+                            count += 1;
+                        }
+                        // the integrity attribute cut short: its value reduced to 0, 4, ... bytes (lengths
+                        // fixed up, whatever follows it kept) must never be taken for a valid one
+                        {
+                            let full = a.value.len();
+                            let mut acc = Vec::new();
+                            let mut panicked = false;
+                            for k in (0..full).step_by(4) {
+                                let mut alt = bytes[..base].to_vec();
+                                alt.extend_from_slice(&bytes[base..base + k]);
+                                alt.extend_from_slice(&bytes[base + full..]);
+                                alt[base - 2..base].copy_from_slice(&(k as u16).to_be_bytes());
+                                let l = (alt.len() - 20) as u16;
+                                alt[2..4].copy_from_slice(&l.to_be_bytes());
+                                let (ok, pn) = accepted(&alt, t, &key.lib);
+                                acc.push(ok);
+                                panicked |= pn;
+                            }
+                            writeln!(f, "{}", json!({"op":"flt","attr":tname,"pos":base + 1,"acc":acc,"sub":[],
+                                                     "panic":panicked,"double":true,"truncated":true})).unwrap();
                             count += 1;
                         }
                         let nbits = a.value.len() * 8;
